@@ -93,6 +93,24 @@ def run(F):
                     ra, _ = _roots(b, defs, t["args"][0])
                     rb, _ = _roots(b, defs, t["args"][1])
                     pairs.append((ra, rb, t["span"]))
+                # the norm may be computed by a private helper (`Self::residual_norm(density, &rho_projected, &res_bulk)`): the
+                # subtraction is found inside and its operands are mapped back to the arguments of the call
+                cb = F.callee_body(t)
+                if cb is not None and not cb.is_closure() and cb.path.startswith("feos_dft::") and cb.get("vis") != "Public" and cb["arg_count"] == len(t["args"]):
+                    cdefs = Defs(cb)
+                    for _bj, t2 in cb.calls():
+                        if callee(t2)[2] == "sub" and len(t2["args"]) == 2 and all("ndarray::ArrayBase" in ((cb.opty(a) or {}).get("s") or "") for a in t2["args"]):
+                            pa, _ = _roots(cb, cdefs, t2["args"][0])
+                            pb, _ = _roots(cb, cdefs, t2["args"][1])
+                            pa = {x for x in pa if 1 <= x <= cb["arg_count"]}
+                            pb = {x for x in pb if 1 <= x <= cb["arg_count"]}
+                            if pa and pb and not (pa & pb):
+                                ra, rb = set(), set()
+                                for x in pa:
+                                    ra |= _roots(b, defs, t["args"][x - 1])[0]
+                                for x in pb:
+                                    rb |= _roots(b, defs, t["args"][x - 1])[0]
+                                pairs.append((ra, rb, t["span"]))
                 for a in t["args"]:
                     if a.get("k") in ("copy", "move"):
                         work.append(a["place"]["l"])
